@@ -11,6 +11,7 @@ def run(ctx, rep):
     est_common.run_cache(ctx, rep)
     est_common.run_purity(ctx, rep)
     est_common.run_reweighted(ctx, rep)
+    est_common.run_solver_state(ctx, rep)
 
 
 def replay(ctx, payload):
